@@ -46,6 +46,13 @@ RESTRICTIONS = [
     ("include of an extern rule", "@export A = >E; @extern(crate::f) E;"),
     ("include of a missing rule, nested", "@export A = 'a' { [ >Nope ] } ;"),
 ]
+# "mixing `@:` with named fields is rejected" - in every order and wrapping, on a rule that carries no other
+# restriction (not exported, no directives), used from an exported root
+for _ov in ("@:B", "[@:B]", "(@:B | @:C)", "{@:B}", "'<' @:B '>'"):
+    for _nm in ("x:B", "{x:B}", "[x:B]", "x:B y:C", "( x:B | y:C )"):
+        for _lab, _body in (("override first", "%s %s" % (_ov, _nm)), ("named first", "%s %s" % (_nm, _ov)),
+                            ("override first, then alone", "%s %s | %s" % (_ov, _nm, _ov)), ("separate arms, named first", "%s | %s" % (_nm, _ov))):
+            RESTRICTIONS.append(("override mixed with named field (%s: %s)" % (_lab, _body), "@export S = a:A $; A = %s; B = 'b'; C = 'c';" % _body))
 # expression-level violations, to be embedded in every syntactic context (the same construct must be rejected
 # whether it is the whole body, one alternative of a choice, inside brackets, in a sequence, behind a lookahead ...)
 BAD_EXPRS = [
